@@ -42,7 +42,12 @@ def gen(rng, tier):
     # a NULL or empty directory stands for the layer "" (files directly below "/"); the option string spells it as an
     # empty component of PARSING_DIRS.  The configuration name carries a path ("@" = the scratch root), so that the
     # layer "" has something to find: all entry points must agree here as well
-    for _ in range(n // 6):
+    out += gen_emptydir(rng, n // 6)
+    return out
+
+def gen_emptydir(rng, count):
+    out = []
+    for _ in range(count):
         vname = b"L/" + rng.choice([b"foo", b"bar"]); sfx = rng.choice([b"conf", b".conf"])
         empty = rng.choice([None, b""])
         first = rng.random() < 0.5
